@@ -1268,6 +1268,13 @@ func (bc *Blockchain) resetStateInternal(height uint32, stage stateChangeStage) 
 	case transfersReset:
 		// there's nothing to do after that, so just continue with common operations
 		// and remove state reset stage in the end.
+		if stage == transfersReset {
+			// Resumed right from this stage: MPT state is already reset in the DB,
+			// but the state root module wasn't initialized by ResetState.
+			if err = bc.stateRoot.Init(height); err != nil {
+				return fmt.Errorf("failed to init MPT at height %d: %w", height, err)
+			}
+		}
 	default:
 		return fmt.Errorf("unknown state reset stage: %d", stage)
 	}
